@@ -253,15 +253,16 @@ Fixpoint tied_loop (margin : Z) (fuel t : nat) (b : bstate) : bool :=
 End Search.
 
 (* ===================== the test language model of the correspondence ========= *)
-(* state s in 0..M-1; at idx 0 the state is the initial one, at idx t>0 it becomes
-   (a*s + b*hist[t-1] + c) mod M; the row of log-probabilities is table[s].  *)
-Definition hash_calc (a b c M : Z) (table : list (list score))
+(* state s in 0..M-1; at idx 0 the state is the initial one (reduced mod M), at idx t>0 it
+   becomes (a*s + b*hist[t-1] + c) mod M; the row of log-probabilities is table[s]
+   (M rows of V entries).  *)
+Definition hash_calc (a b c M : Z) (V : nat) (table : list (list score))
   (h : list Z) (s : Z) (t : nat) : list score * Z :=
   let s' := match t with
-            | 0 => s
+            | 0 => (s mod M)%Z
             | S t' => ((a * s + b * nth t' h 0%Z + c) mod M)%Z
             end in
-  (nth (Z.to_nat s') table [], s').
+  (nth (Z.to_nat s') table (repeat None V), s').
 
 (* ===================== correspondence entry points =========================== *)
 Definition list_eqb {A} (eqb : A -> A -> bool) :=
